@@ -22,6 +22,8 @@ CLAIMED = {
          "deterministic simulation: seeded interleaving of cache transactions at every lock operation + isolation / scrap / staleness / progress invariants"),
  "C10": ("exploration", "7 C10", "Seeded histories (large inserts, updates that add/change/remove the vector field in one batch, deletes of a point with all its out-neighbours read from the previous dump, re-insertion into freed node ids, reopen) on a real shard with a Vamana index; insert workers interleaved and map orders permuted by the simulator. After every successful write the committed file is dumped with bbolt directly and structural invariants are checked: node set = vector set = entry + live points with the field, edges to existing other nodes, degree bound, recorded max node id, uuid<->node id bijection equal to the model, free list vs live ids, stored plain vectors.",
          "deterministic simulation: seeded scheduler + structural invariants over raw bucket dumps after every write"),
+ "C12": ("exploration", "7 C12", "The real ShardManager with real shards on real bbolt files under the fake clock: 2-4 request tasks (DoWithShard with Info / insert / search callbacks), 0-2 deleting tasks, idle timeout 1-3 simulated seconds, backups on/off. The seeded scheduler interleaves at every lock, channel, timer and storage operation and advances simulated time at seeded moments so that the idle timer fires during requests and deletions. Checked: no storage transaction on a closed store, no database file open twice at once, no directory removed while a store below it is open, only clean errors from DoWithShard, no deadlock (lock-waiter tracking), and bounded liveness: once time jumps stop, a request on every shard succeeds.",
+         "deterministic simulation: seeded interleaving + simulated clock jumps over the shard lifecycle; use-after-close / double-open / removal audits; deadlock detection; bounded liveness"),
  "C07": ("fault_enumeration", "7 C07", "For sampled (history, schedule) pairs a fault-free dry run counts the storage operations of a target write batch; then one fault per simulated process life: validation rejections, error from the k-th put/delete/scan/bucket-open, commit failure, disk full and meta-write failure (bbolt's own gofail failpoints), process kill at the k-th storage operation / before commit / between data and meta sync / after commit. Quick samples 5 faults per history; thorough additionally enumerates every kind x every k of the batch for a third of the histories (exhaustive for that batch). Oracle: failed call => warm answers, cold answers on a file copy and the logical file digest equal the pre-batch state and the rest of the history still behaves; success => post-batch state; kill => the reopened file is exactly the pre- or post-batch state as the crash point dictates; any panic in any goroutine or use of a storage handle after its transaction ended is a violation.",
          "deterministic simulation + storage fault / crash-point enumeration (storage proxy, bbolt gofail failpoints), pre/post-state refinement oracle"),
  "C01": ("exploration", "7 C01", "Seeded histories of insert/update/delete/reopen/evict batches on a real shard (bbolt or memory backend) under seeded schedules of its internal pipeline goroutines; after every batch the complete stored state (id set, every document, point count) and every call's return values are compared with an independent reference model. Evidence, not proof: sampling of histories x schedules.",
